@@ -18,4 +18,6 @@ let table : (Stdlib.String.t * (z list -> z list)) list = [   (* Stdlib.: the ex
   ("xmiattr", run_xmiattr);
   ("jsonval", run_jsonval);
   ("refload", run_refload);
+  ("paths", run_paths);
+  ("proxy", run_proxy);
 ]
